@@ -445,7 +445,8 @@ impl<T> SegQueue<T> {
     #[track_caller]
     pub fn push(&self, t: T) {
         point(Op::QPush, self as *const _ as usize);
-        self.0.push(t)
+        self.0.push(t);
+        may_queue::verif::after(self as *const _ as usize);
     }
 
     #[inline]
